@@ -261,8 +261,28 @@ pub fn foreign_ca() -> BoxedStrategy<ForeignCa> {
 }
 
 pub fn forge_ca(f: &ForeignCa) -> Result<Vec<u8>, String> {
+	forge_ca_with(f, 0)
+}
+
+/// `flip`: bit i set = the criticality of the i-th extension is the opposite of what the profile
+/// (and the harness encoder) would choose. Foreign CAs are not bound by rcgen's choices.
+pub fn forge_ca_with(f: &ForeignCa, flip: u16) -> Result<Vec<u8>, String> {
 	let name = FName::from_dn(&f.spec.dn);
-	let exts = forge::spec_extensions(&f.spec, f.ski.as_ref().map(|h| h.0.as_slice()), None);
+	let mut exts = forge::spec_extensions(&f.spec, f.ski.as_ref().map(|h| h.0.as_slice()), None);
+	for (i, e) in exts.iter_mut().enumerate() {
+		if i < 16 && flip & (1 << i) != 0 {
+			let l = crate::der::Lints::new();
+			let t = crate::der::read_single(e, &l, "extension")?;
+			let parts = crate::der::children(t.content, &l)?;
+			let was_critical = parts.len() == 3;
+			let mut items = vec![parts[0].raw.to_vec()];
+			if !was_critical {
+				items.push(forge::enc_bool(true));
+			}
+			items.push(parts[parts.len() - 1].raw.to_vec());
+			*e = crate::der::enc_seq(&items);
+		}
+	}
 	let fc = forge::ForgeCert {
 		serial: &f.spec.serial.as_ref().unwrap().0,
 		issuer: &name,
